@@ -312,6 +312,38 @@ def run_shard(shard, ctx):
     common = helper_names(gen).keys() & helper_names(hand).keys()
     if shard['part'] == 0:
         compare_structure(r, gen, hand)
+        # classes DERIVED from the two runtimes: a subclass of the generated class, and a hand-written class two steps below the base class
+        # (cells as methods, the way the base class is meant to be used) answer like the class that defines the cells
+        import re as _re
+        Sub = type('Sub', (gen,), {})
+        SubSub = type('SubSub', (Sub,), {'extra': 1})
+        uids = sorted(k for k in gen.__dict__ if _re.fullmatch(r'_\d+_\d+_\d+', k))[:40]
+        for uid in uids:
+            outs = []
+            for klass in (gen, Sub, SubSub):
+                try:
+                    outs.append(('ok', canon(klass().exec_function_in(uid))))
+                except BaseException as e:  # noqa: B902
+                    outs.append(('exc', type(e).__name__))
+            r.ev()
+            r.count('derived_class_checks')
+            if not (outs[0] == outs[1] == outs[2]):
+                report(r, ID, None, {'helper': '_cell_preprocessor', 'args': [uid], 'source': 'subclass of the generated class'},
+                       {'generated': outs[0], 'subclass': outs[1], 'subclass_of_subclass': outs[2]}, 'the same value from a derived class', monitor='derived-class')
+        H = type('H', (hand,), {'_0_0_0': lambda self: 5, '_0_1_0': lambda self: self._cell_preprocessor('_0_0_0') + 1,
+                                '_0_2_0': lambda self: self._sum(self._flatten_list([[self._cell_preprocessor('_0_0_0')], [self._cell_preprocessor('_0_1_0')]]))})
+        H2 = type('H2', (H,), {})
+        for uid, want in (('_0_0_0', 5), ('_0_1_0', 6), ('_0_2_0', 11)):
+            for klass in (H, H2):
+                try:
+                    got = ('ok', klass().exec_function_in(uid))
+                except BaseException as e:  # noqa: B902
+                    got = ('exc', type(e).__name__)
+                r.ev()
+                r.count('derived_class_checks')
+                if got != ('ok', want):
+                    report(r, ID, None, {'helper': '_cell_preprocessor', 'args': [uid], 'source': 'hand-written class derived from ' + klass.__mro__[1].__name__},
+                           got, want, monitor='derived-class')
     # (a) recorded in situ
     recorded = []
     mon = RuntimeMonitor(r, record_args=recorded, prefix='insitu')
